@@ -16,8 +16,8 @@ EXTENDS Integers, Sequences, FiniteSets, TLC, Json
 
 CONSTANTS MaxMentions        \* properties of the root
 
-Names == {"a", "b", "c"}
-StringNames == {"a", "c"}
+Names == {"a", "b", "c", "d"}
+StringNames == {"a", "c", "d"}
 ObjectNames == {"b"}
 
 \* a mention in the root: position and the names it uses
@@ -29,6 +29,7 @@ RootMentions ==
 \cup {M("type", <<n>>) : n \in StringNames}
 \cup {M("or", <<n>>) : n \in StringNames}
 \cup {M("orset", <<n>>) : n \in StringNames}
+\cup {M("or2", <<pr[1], pr[2]>>) : pr \in {q \in StringNames \X StringNames : q[1] # q[2]}}
 \cup {M("allOf", <<n>>) : n \in ObjectNames}
 \cup {M("addprops", <<n>>) : n \in Names}
 
@@ -36,8 +37,10 @@ RootMentions ==
 \*   a: "s"            | "s" // {type: "@c"}
 \*   b: {"bk": 1}      | {"bk": @a} | {"bk": @c} | { // {allOf ...} no: single object type } | {"bk": 1} // {additionalProperties: "@a"}
 \*   c: "t"            | "t" // {or: ["@a", "integer"]}
-TypeVariants == [a |-> {<<>>, <<"c">>}, b |-> {<<>>, <<"a">>, <<"c">>, <<"ap-a">>}, c |-> {<<>>, <<"a">>}]
-MentionsOf(n, v) == IF v = <<>> THEN {} ELSE IF v = <<"ap-a">> THEN {"a"} ELSE {v[1]}
+\*   a: @c  (a type that is nothing but a reference),   c: @a
+\*   d: "u"  (a plain string type, mentions nothing)
+TypeVariants == [a |-> {<<>>, <<"c">>, <<"ref-c">>}, b |-> {<<>>, <<"a">>, <<"c">>, <<"ap-a">>}, c |-> {<<>>, <<"a">>, <<"ref-a">>}, d |-> {<<>>}]
+MentionsOf(n, v) == IF v = <<>> THEN {} ELSE IF v \in {<<"ap-a">>, <<"ref-a">>} THEN {"a"} ELSE IF v = <<"ref-c">> THEN {"c"} ELSE {v[1]}
 
 VARIABLES root,        \* sequence of root mentions
           variant,     \* [Names -> variant]
@@ -57,7 +60,13 @@ ChooseVariants(f) == /\ stage = "root" /\ root # <<>>
                      /\ f \in [Names -> UNION {TypeVariants[n] : n \in Names}]
                      /\ \A n \in Names : f[n] \in TypeVariants[n]
                      \* acyclic mentions among types: a -> c and c -> a not together
-                     /\ ~(f["a"] = <<"c">> /\ f["c"] = <<"a">>)
+                     /\ ~(f["a"] \in {<<"c">>, <<"ref-c">>} /\ f["c"] \in {<<"a">>, <<"ref-a">>})
+                     \* a key shortcut needs a type whose kind is known without looking further
+                     /\ \A i \in 1..Len(root) : root[i].pos = "key" => f[root[i].ns[1]] \notin {<<"ref-a">>, <<"ref-c">>}
+                     \* the two alternatives of an `or` do not lead to one another (the library reports that as a recursion)
+                     /\ \A i \in 1..Len(root) : root[i].pos \in {"or2", "choice"} =>
+                            /\ root[i].ns[2] \notin MentionsOf(root[i].ns[1], f[root[i].ns[1]])
+                            /\ root[i].ns[1] \notin MentionsOf(root[i].ns[2], f[root[i].ns[2]])
                      \* inheriting from @b must not meet a different additionalProperties setting (that is C07's refusal)
                      /\ (f["b"] = <<"ap-a">> /\ (\E i \in 1..Len(root) : root[i].pos = "allOf"))
                            => \A i \in 1..Len(root) : root[i].pos = "addprops" => root[i].ns = <<"a">>
@@ -65,7 +74,7 @@ ChooseVariants(f) == /\ stage = "root" /\ root # <<>>
 Register(S, z) == /\ stage = "register"
                   /\ registered' = S /\ unused' = z /\ stage' = "done" /\ UNCHANGED <<root, variant>>
 Next == \/ \E m \in RootMentions : AddMention(m)
-        \/ \E f \in [Names -> {<<>>, <<"a">>, <<"c">>, <<"ap-a">>}] : ChooseVariants(f)
+        \/ \E f \in [Names -> {<<>>, <<"a">>, <<"c">>, <<"ap-a">>, <<"ref-a">>, <<"ref-c">>}] : ChooseVariants(f)
         \/ \E S \in SUBSET Names, z \in BOOLEAN : Register(S, z)
 Spec == Init /\ [][Next]_vars
 
